@@ -266,7 +266,7 @@ type boundsCtx struct {
 func newBoundsCtx(w *World) *boundsCtx {
 	bc := &boundsCtx{w: w, mods: map[*ssa.Function]*modSet{}, cellOK: map[*ssa.Alloc]bool{}, unstableGlobal: map[*ssa.Global]bool{}}
 	for _, fn := range w.Funcs {
-		if fn.Synthetic != "" && fn.Name() == "init" {
+		if fn.Synthetic != "" && nm(fn) == "init" {
 			continue // the package initialiser runs before anything else
 		}
 		EachInstr(fn, func(in ssa.Instruction) {
